@@ -762,7 +762,7 @@ def rule_builder_frame(cad, rep, adt, setters, rid='builder', value_only=False, 
             v = vals.get(exp[0])
             if exp[1] == 'some-box':
                 okv = v is not None and v[0] == 'adt' and v[2] == 'Some' and any(x == ('param', 2) for x in walk(v)) and \
-                    any(x[0] == 'call' and x[1].endswith('alloc::boxed::Box::new') and x[2] == (('param', 2),) for x in walk(v))
+                    any(x[0] == 'call' and x[1].endswith(('alloc::boxed::Box::new', 'alloc::sync::Arc::new')) and x[2] == (('param', 2),) for x in walk(v))
             elif exp[1] is None:
                 continue
             else:
@@ -792,7 +792,7 @@ def rule_builder_frame(cad, rep, adt, setters, rid='builder', value_only=False, 
         if okf and exp[1] == 'some-box':
             v = vals[exp[0]]
             okv = v[0] == 'adt' and v[2] == 'Some' and any(x == ('param', 2) for x in walk(v)) and \
-                any(x[0] == 'call' and x[1].endswith('alloc::boxed::Box::new') and x[2] == (('param', 2),) for x in walk(v))
+                any(x[0] == 'call' and x[1].endswith(('alloc::boxed::Box::new', 'alloc::sync::Arc::new')) and x[2] == (('param', 2),) for x in walk(v))
             rep.ob(rid, '%s::%s/value' % (short, b.name), okv, b.where(), 'stores Some(Box::new(param))' if okv else 'stores %s' % fmt(v))
 
 
